@@ -51,11 +51,22 @@ package leanhelixterm
 // A-SPI: the committee the consumer's Membership hands out has at least the hard minimum of members and a total weight
 // that fits 64 bits; on a terminated context nil is returned with an error. (Body: a polling loop around the SPI call with a
 // timed wait - outside the subset, trusted.)
-//@ func requestOrderedCommitteePersist
-//@   trusted
-//@   modifies M:S_state_HeightView:Int
+//@ iface interfaces.Membership.RequestOrderedCommittee
 //@   ensures [A-SPI.committee] result1 == nil ==> len(result0) >= 4 && SumMW(result0, len(result0)) < 2^64
-//@   ensures result1 != nil ==> isnil(result0)
+// The polling loop (verified, the loop itself abstracted by havoc): the committee is requested under the term-wide context
+// of this height, only after that context was observed live in the same iteration (so a cancelled term stops polling
+// whatever the SPI answers, C16), and what is returned without error is what the SPI returned without error.
+// the cancel function of the private timed wait: it ends that wait's own context, which nothing else refers to
+//@ dep param:leanhelixterm.requestOrderedCommitteePersist.cancel
+//@   ensures true
+//@ func requestOrderedCommitteePersist
+//@   props C16 C15 C12
+//@   requires s != nil && s.Contexts != nil && config != nil && config.Membership != nil
+//@   modifies M:S_state_HeightView:Int, ghost:lastCtxErrNil, ghost:recvd
+//@   ensures [the-committee-of-the-spi] result1 == nil ==> len(result0) >= 4 && SumMW(result0, len(result0)) < 2^64
+//@   ensures [no-committee-on-error] result1 != nil ==> isnil(result0)
+//@   assert before call For [O15.7.polled-under-the-term-wide-context-of-this-height] $hv.height == blockHeight && $hv.view == 18446744073709551615
+//@   assert before call RequestOrderedCommittee [O16.the-committee-is-requested-only-under-a-context-observed-live-in-this-iteration] lastCtxErrNil
 
 //@ func isParticipatingInTerm
 //@   props C12
